@@ -556,6 +556,6 @@ func init() {
 		Rule:  "a fixed index and long-lived query objects (one ContainsPointQuery per vertex model, one CrossingEdgeQuery) answering ≤ " + maxOps + " calls with varying points/edges/shapes/crossing types; oracle: new query objects on a fresh copy of the index per call. Non-trivial: ≥ 2 calls on one object, index with ≥ 2 cells.",
 		Quick: 2500, Thorough: 80000, Journal: true}, genPQReuse, checkPQReuse)
 	ev.Define("stale_query_objects", ev.Options{
-		Rule:  "query objects (ContainsPointQuery, CrossingEdgeQuery, closest EdgeQuery) created on an index BEFORE a later Add (optionally used once before it, optionally followed by an explicit Build, optionally EdgeQuery.Reset; in 1/3 of cases the index is Reset first, and in half of those the SAME earlier shape objects are added again after the later ones, so they sit under other ids; the objects used before have answered per-shape calls - ShapeContains, Crossings - for the earlier shapes) and then asked; oracle: new query objects on a fresh index with all shapes. Kept separate because the defect (Finding stale-query-object) would mask everything else; Counts record which method disagreed. Non-trivial: the later shape changes some fresh answer.",
+		Rule:  "query objects (ContainsPointQuery, CrossingEdgeQuery, closest EdgeQuery) created on an index BEFORE a later Add (optionally used once before it, optionally followed by an explicit Build, optionally EdgeQuery.Reset; in 1/3 of cases the index is Reset first, and in half of those the SAME earlier shape objects are added again after the later ones, so they sit under other ids; the objects used before have answered per-shape calls - ShapeContains, Crossings - for the earlier shapes) and then asked (each of the three ContainsPointQuery methods, and either CrossingEdgeQuery method, comes first in some cases - any one of them may be the call that notices the pending update); oracle: new query objects on a fresh index with all shapes. Kept separate because the defect (Finding stale-query-object) would mask everything else; Counts record which method disagreed. Non-trivial: the later shape changes some fresh answer.",
 		Quick: 2500, Thorough: 60000, Journal: true}, genStale, checkStale)
 }
